@@ -636,12 +636,23 @@ ViewRelease(v) ==
     /\ views' = Without(views, v)
     /\ UNCHANGED <<settings, known, queue, nextID, allS, indexes, tags, flags, during, unmerge, jobs, toConv, cache>>
 \* StreamContext.Data(converter) (manager.go:2552-2577): converts on demand, outside the loop, from the view's snapshot
-ViewConvert(v, s, c) ==
+\* A conversion that stored new output posts a closure to the service loop, which reopens the tags with payload
+\* filters for that stream (they search cached output too).  The cache write and the closure are one step here: the
+\* window between them is the same transient as known finding C06.*:convjob and cannot be observed without a hook.
+ViewConvert(v, s, c, pick) ==
     /\ v \in DOMAIN views /\ c \in DOMAIN cache
     /\ \E e \in Visible(views[v].idx) : e[1] = s
-    /\ LET ver == (CHOOSE e \in Visible(views[v].idx) : e[1] = s)[3] IN
-       cache' = [cache EXCEPT ![c] = IF \E x \in @ : x[1] = s THEN @ ELSE @ \cup {<<s, ver>>}]
-    /\ UNCHANGED <<settings, known, queue, nextID, allS, files, indexes, use, tags, flags, during, unmerge, jobs, views, toConv>>
+    /\ IF \E x \in cache[c] : x[1] = s
+       THEN UNCHANGED <<cache, tags, flags, during, jobs, use, toConv>>
+       ELSE LET ver == (CHOOSE e \in Visible(views[v].idx) : e[1] = s)[3]
+                hit == {s} \cap allS
+                tg1 == Inherit([t \in DOMAIN tags |->
+                            IF tags[t].def.k \in {"D", "C"} THEN [tags[t] EXCEPT !.U = @ \cup hit] ELSE tags[t]], allS)
+                b0 == Bundle(tg1, flags, jobs, use, [during EXCEPT !.upd = @ \cup hit], toConv)
+            IN /\ cache' = [cache EXCEPT ![c] = @ \cup {<<s, ver>>}]
+               /\ pick \in TagPicks(tg1, flags)
+               /\ Install(StartTag(b0, indexes, pick))
+    /\ UNCHANGED <<settings, known, queue, nextID, allS, files, indexes, unmerge, views>>
 
 -----------------------------------------------------------------------------
 (* ---------- process kill and restart (manager.go:233-466, New; builder.go:37-97) ----------
